@@ -174,3 +174,331 @@ Example c08_cache_nonvacuous :
   | None => False
   end.
 Proof. vm_compute. repeat split; reflexivity. Qed.
+
+(* ================================================================== the commit protocol under backend faults
+   Storage/FaultCommit.v: C01's executable protocol model (Storage/Protocol.v: eviction, growth, one-phase /
+   two-phase / quick-repair durable commits with or without shrink, non-durable commits, clean close, reopen,
+   and the recovery run) with every operation it emits issued through the latch model of this file
+   (Latch.lrun) under an ARBITRARY fault oracle `fo : nat -> fate`: the i-th backend call of the step (write,
+   set_len, sync_data, and the read / len calls interleaved by the oracle `rq_qs`) answers Ok or fails; a failing
+   write has stored any prefix of its data (`FFail keep`).  `step_f s r fo = (s', ok)`; `commit_f` is step_f on a
+   PCommit request, `close_f` on PClose (the shutdown sequence), `recovery_f` runs recovery's own writes.
+   The protocol state after a failure is the CUT of the fault-free run at the failing operation.
+   Tied to the code per run by harness c08 (F lines: the extracted step_f / recovery_f on the fault-free operation
+   stream of the API call with the observed failure index must predict the result class and the sync window whose
+   crash image the surviving bytes are).
+   Premises of the composition theorems are C01's, visible in the statements: tear_resistant H,
+   pages_above_header expect, Inv + Sem of the state (hold in every state of the fault-free protocol from a
+   truthful summary: protocol_windows_ok / protocol_images_ok, and are kept by every step that reports Ok:
+   c08_ok_step_keeps_invariants), step_okb / step_sem for the request (C06 / C10 / C14 / C20 oracle side
+   conditions, validated per run by ./check C01). *)
+From RV Require Import Gen.Consts Storage.Crash Storage.Header Storage.Window Storage.IdealH Storage.C01Example
+  Storage.Protocol Storage.ProtocolP Storage.FaultCommit Storage.FaultCommitP Props.C01.
+
+(* (a) no false success: a step (a commit, a close, ...) reports Ok only if every REQUIRED backend call it issued
+   returned Ok; then the latch is untouched, the protocol state is the one of the fault-free step and the storage
+   received exactly the fault-free operation stream.  Only best-effort writeback (req_be) may have failed: then
+   the state is that of an eviction step of the pages as far as they reached the storage, again a protocol step *)
+Theorem c08_no_false_success : forall (s : fstate) (r : freq) (fo : nat -> fate) (s' : fstate),
+  io_failed (f_latch s) = false -> step_f s r fo = (s', true) ->
+  (forall j c, nth_error (step_calls (f_st s) r) j = Some c -> fst c = false -> fate_ok (fo j) = true)
+  /\ f_latch s' = f_latch s
+  /\ (req_be r = false ->
+        f_st s' = a_st (run_step (f_st s) (rq_step r))
+        /\ trace_effects (step_trace s r fo) = a_ops (run_step (f_st s) (rq_step r))
+        /\ forall D, apply_ops (trace_effects (step_trace s r fo)) (storage_of D (f_st s))
+                     = apply_ops (a_ops (run_step (f_st s) (rq_step r))) (storage_of D (f_st s)))
+  /\ (req_be r = true ->
+        exists pages pages', rq_step r = PEvict pages
+          /\ f_st s' = a_st (run_step (f_st s) (PEvict pages'))
+          /\ (step_okb (f_st s) (PEvict pages) = true -> step_okb (f_st s) (PEvict pages') = true)).
+Proof. exact no_false_success. Qed.
+
+(* ... hence an acknowledged durable commit is durable: the image its last sync_data completed serves the new
+   commit q, and so does every crash image of what the storage holds afterwards *)
+Theorem c08_acked_commit_is_durable :
+  forall (H : bytes -> bytes) (expect : bytes -> list (N * bytes)) (ps : N),
+    tear_resistant H -> pages_above_header expect ->
+    forall (s : fstate) (two : bool) (q : bytes) (rng : list range) (pgs : list (N * bytes))
+           (shrink : option (N * bytes)) (qs : list nat) (fo : nat -> fate) (s' : fstate) (D : image),
+      io_failed (f_latch s) = false -> Inv (f_st s) -> Sem H expect ps (f_st s) D ->
+      step_okb (f_st s) (PCommit two q rng pgs shrink) = true ->
+      step_sem H expect (f_st s) D (PCommit two q rng pgs shrink) ->
+      commit_f s two q rng pgs shrink qs fo = (s', true) ->
+      let D' := image_after D (a_ws (run_step (f_st s) (PCommit two q rng pgs shrink))) in
+      recover H expect ps D' = Some q
+      /\ forall img, CrashOf D' (p_win (f_st s')) img -> recover H expect ps img = Some q.
+Proof. exact acked_commit_is_durable. Qed.
+
+(* (b) a step that reports Err: the latch is set; the first failing required call is named; the storage the
+   backend holds is the durable image at the start of the sync window `w` of the FAULT-FREE run in which that
+   call lies plus a weakening (cut at the failing operation, torn prefix of a failing write) of w's operations:
+   it, and every crash image of it, is a crash image (Crash.CrashOf) of the fault-free window *)
+Theorem c08_failed_commit_is_a_crash_image : forall (s : fstate) (r : freq) (fo : nat -> fate) (s' : fstate),
+  io_failed (f_latch s) = false -> step_f s r fo = (s', false) ->
+  io_failed (f_latch s') = true
+  /\ (exists k c, first_fail (step_calls (f_st s) r) fo O = Some k
+                  /\ nth_error (step_calls (f_st s) r) k = Some c /\ fst c = false /\ fate_ok (fo k) = false)
+  /\ exists pre w post,
+       all_windows (run_step (f_st s) (rq_step r)) = pre ++ w :: post
+       /\ p_d (f_st s') = w_sum w
+       /\ sub_ops (p_win (f_st s')) (w_ops w)
+       /\ forall D,
+            apply_ops (trace_effects (step_trace s r fo)) (storage_of D (f_st s))
+            = storage_of (image_after D pre) (f_st s')
+            /\ CrashOf (image_after D pre) (w_ops w) (storage_of (image_after D pre) (f_st s'))
+            /\ forall img, CrashOf (image_after D pre) (p_win (f_st s')) img
+                           -> CrashOf (image_after D pre) (w_ops w) img.
+Proof. exact failed_step_is_a_crash_image. Qed.
+
+(* ... and afterwards every request is refused and nothing reaches the storage (instance of c08_latch_permanent) *)
+Theorem c08_failed_commit_refuses_everything : forall (s : fstate) (r : freq) (fo : nat -> fate) (s' : fstate),
+  io_failed (f_latch s) = false -> step_f s r fo = (s', false) ->
+  forall r2 fo2, step_f s' r2 fo2 = (s', false) /\ step_trace s' r2 fo2 = [].
+Proof. exact failed_step_refuses. Qed.
+
+(* the storage of this model is Latch.v's storage (c08_failure_is_a_crash_point) when failing calls store nothing *)
+Theorem c08_storage_is_latch_storage : forall (t : list (bev lop)) (D : image),
+  torn_part t = [] -> apply_ops (trace_effects t) D = storage_after lop image lop_apply D t.
+Proof. exact effects_storage_after. Qed.
+
+(* crash images are monotone in what the storage received *)
+Theorem c08_crash_image_of_weakening : forall D E W img, sub_ops E W -> CrashOf D E img -> CrashOf D W img.
+Proof. exact crash_sub. Qed.
+
+(* a step that reports Ok keeps C01's invariant and truthful summary: the fault-aware run stays inside the states
+   of the fault-free protocol, whatever best-effort writes failed on the way *)
+Theorem c08_ok_step_keeps_invariants :
+  forall (H : bytes -> bytes) (expect : bytes -> list (N * bytes)) (ps : N),
+    tear_resistant H -> pages_above_header expect ->
+    forall (s : fstate) (r : freq) (fo : nat -> fate) (s' : fstate) (D : image),
+      io_failed (f_latch s) = false -> Inv (f_st s) -> Sem H expect ps (f_st s) D ->
+      step_okb (f_st s) (rq_step r) = true -> step_sem H expect (f_st s) D (rq_step r) ->
+      step_f s r fo = (s', true) ->
+      Inv (f_st s') /\ Sem H expect ps (f_st s') (image_after D (a_ws (run_step (f_st s) (rq_step r))))
+      /\ io_failed (f_latch s') = false.
+Proof. exact ok_step_keeps_invariants. Qed.
+
+(* (c) composition with C01 -- obtained by applying C01's protocol_crash_safe to the crash image (b) provides:
+   reopening what a failed step (commit, close, growth, eviction, open) leaves behind, or ANY crash image of it,
+   serves the commit that was durable at the last completed sync_data or, completely, the commit in flight *)
+Theorem c08_failed_commit_recovers :
+  forall (H : bytes -> bytes) (expect : bytes -> list (N * bytes)) (ps : N),
+    tear_resistant H -> pages_above_header expect ->
+    forall (s : fstate) (r : freq) (fo : nat -> fate) (s' : fstate) (D : image),
+      io_failed (f_latch s) = false -> Inv (f_st s) -> Sem H expect ps (f_st s) D ->
+      step_okb (f_st s) (rq_step r) = true -> step_sem H expect (f_st s) D (rq_step r) ->
+      step_f s r fo = (s', false) ->
+      exists pre w post,
+        all_windows (run_step (f_st s) (rq_step r)) = pre ++ w :: post
+        /\ p_d (f_st s') = w_sum w
+        /\ sub_ops (p_win (f_st s')) (w_ops w)
+        /\ apply_ops (trace_effects (step_trace s r fo)) (storage_of D (f_st s))
+           = storage_of (image_after D pre) (f_st s')
+        /\ forall img, CrashOf (image_after D pre) (p_win (f_st s')) img ->
+                       crash_outcome H expect ps (w_sum w) (map abs (w_ops w)) img.
+Proof. exact failed_step_recovers. Qed.
+
+(* ... for a durable commit, in the property's words: the contents are those of the commit served before (no
+   older than the last acknowledged durable one: c08_acked_commit_is_durable) or of the failed commit, entirely *)
+Theorem c08_failed_commit_all_or_nothing :
+  forall (H : bytes -> bytes) (expect : bytes -> list (N * bytes)) (ps : N),
+    tear_resistant H -> pages_above_header expect ->
+    forall (s : fstate) (two : bool) (q : bytes) (rng : list range) (pgs : list (N * bytes))
+           (shrink : option (N * bytes)) (qs : list nat) (fo : nat -> fate) (s' : fstate) (D : image),
+      io_failed (f_latch s) = false -> Inv (f_st s) -> Sem H expect ps (f_st s) D ->
+      step_okb (f_st s) (PCommit two q rng pgs shrink) = true ->
+      step_sem H expect (f_st s) D (PCommit two q rng pgs shrink) ->
+      commit_f s two q rng pgs shrink qs fo = (s', false) ->
+      exists D',
+        apply_ops (trace_effects (step_trace s (mkReq (PCommit two q rng pgs shrink) false qs) fo)) (storage_of D (f_st s))
+        = storage_of D' (f_st s')
+        /\ forall img, CrashOf D' (p_win (f_st s')) img ->
+             recover H expect ps img = Some (dP (p_d (f_st s))) \/ recover H expect ps img = Some q.
+Proof. exact failed_commit_all_or_nothing. Qed.
+
+(* whole histories: any sequence of requests, each with its own fault oracle (any number of failed best-effort
+   writebacks, one failed required call after which everything is refused): what the backend finally holds is a
+   durable image D' of the fault-free protocol plus a weakening of the operations of one of its sync windows, and
+   every crash image of it has C01's outcome; while every step reports Ok the invariants hold *)
+Theorem c08_faulty_history_recovers :
+  forall (H : bytes -> bytes) (expect : bytes -> list (N * bytes)) (ps : N),
+    tear_resistant H -> pages_above_header expect ->
+    forall (rs : list (freq * (nat -> fate))) (s : fstate) (D : image) (s' : fstate) (bs : list bool),
+      io_failed (f_latch s) = false -> Inv (f_st s) -> Sem H expect ps (f_st s) D ->
+      hist_ok H expect s D rs -> steps_f s rs = (s', bs) ->
+      exists D' W,
+        apply_ops (steps_effects s rs) (storage_of D (f_st s)) = storage_of D' (f_st s')
+        /\ sub_ops (p_win (f_st s')) W
+        /\ (forall img, CrashOf D' (p_win (f_st s')) img ->
+                        crash_outcome H expect ps (p_d (f_st s')) (map abs W) img)
+        /\ (Forall (fun b => b = true) bs ->
+            io_failed (f_latch s') = false /\ Inv (f_st s') /\ Sem H expect ps (f_st s') D')
+        /\ (~ Forall (fun b => b = true) bs -> io_failed (f_latch s') = true).
+Proof. exact faulty_history_recovers. Qed.
+
+(* (d) recovery's own writes (TransactionalMemory::new + Database::new on a crash image; the shutdown sequence is
+   the step PClose above): Ok only if every call succeeded, then the state is the one of the fault-free run ... *)
+Theorem c08_recovery_no_false_success : forall d o qs fo a s',
+  recovery_run d o = Some a -> recovery_f d o qs fo = Some (s', true) ->
+  (forall j c, nth_error (recovery_calls a qs) j = Some c -> fate_ok (fo j) = true)
+  /\ f_st s' = a_st a /\ f_latch s' = l_init
+  /\ forall D, apply_ops (trace_effects (recovery_trace a qs fo)) D = apply_ops (a_ops a) D.
+Proof. exact recovery_no_false_success. Qed.
+
+(* ... and a recovery that fails part way leaves a storage that recovers again: C01's recovery_crash_safe at the
+   operation that failed (premises: C01's image_ok / dead / rec_side_okb / repair_sem) *)
+Theorem c08_failed_recovery_recovers :
+  forall (H : bytes -> bytes) (expect : bytes -> list (N * bytes)) (ps : N),
+    tear_resistant H -> pages_above_header expect ->
+    forall (d : dsum) (D : image) (o : roracle) (qs : list nat) (fo : nat -> fate) (a : acc) (s' : fstate),
+      image_ok H expect ps d D -> dead H d -> rec_side_okb d o = true -> repair_sem H expect d o ->
+      recovery_run d o = Some a -> recovery_f d o qs fo = Some (s', false) ->
+      io_failed (f_latch s') = true
+      /\ exists pre w post,
+        all_windows a = pre ++ w :: post
+        /\ p_d (f_st s') = w_sum w
+        /\ sub_ops (p_win (f_st s')) (w_ops w)
+        /\ apply_ops (trace_effects (recovery_trace a qs fo)) D = storage_of (image_after D pre) (f_st s')
+        /\ forall img, CrashOf (image_after D pre) (p_win (f_st s')) img ->
+                       crash_outcome H expect ps (w_sum w) (map abs (w_ops w)) img.
+Proof. exact failed_recovery_recovers. Qed.
+
+Theorem c08_ok_recovery_keeps_invariants :
+  forall (H : bytes -> bytes) (expect : bytes -> list (N * bytes)) (ps : N),
+    tear_resistant H -> pages_above_header expect ->
+    forall (d : dsum) (D : image) (o : roracle) (qs : list nat) (fo : nat -> fate) (a : acc) (s' : fstate),
+      image_ok H expect ps d D -> dead H d -> rec_side_okb d o = true -> repair_sem H expect d o ->
+      recovery_run d o = Some a -> recovery_f d o qs fo = Some (s', true) ->
+      Inv (f_st s') /\ Sem H expect ps (f_st s') (image_after D (a_ws a)) /\ io_failed (f_latch s') = false.
+Proof. exact ok_recovery_keeps_invariants. Qed.
+
+(* ---- non-vacuity: C01Example's database (page 512, 2048 bytes; slot 0 = txid 5 served) ----
+   history: a read and the best-effort writeback of a page, which FAILS after storing 1 byte (swallowed: Ok);
+   a one-phase commit (2 reads, the page again, one header write, sync): Ok; a two-phase commit whose SECOND
+   sync_data fails: Err; the same commit request again: refused *)
+Definition fx_ok : nat -> fate := fun _ => FOk.
+Definition fx_evict : freq := mkReq (PEvict [(1536, [2; 6])]) true [1%nat].
+Definition fx_c1 : freq := mkReq (PCommit false (ex_slot 2 6) [(1536, 2)] [(1536, [2; 6])] None) false [2%nat].
+Definition fx_c2 : freq := mkReq (PCommit true (ex_slot 1 7) [(1024, 2)] [(1024, [1; 7])] None) false [].
+Definition fx_hist : list (freq * (nat -> fate)) :=
+  [(fx_evict, fail_at 1 false 1); (fx_c1, fx_ok); (fx_c2, fail_at 4 false 0); (fx_c2, fx_ok)].
+Definition fx_s2 : fstate := fst (steps_f (f_init px_st0) [(fx_evict, fail_at 1 false 1); (fx_c1, fx_ok)]).
+
+Definition fx_shape (l : list Backend.op) : list (N * N) :=
+  map (fun o => match o with Write off d => (off, wlen d) | SetLen n => (n, 0) | Sync => (0, 0) end) l.
+
+(* the run, computed: results, what the storage received -- (offset, length) of every write, (0, 320) = a header
+   write, (0, 0) = a completed sync_data --, the latch, and the state the model continues with: the summary of the
+   image the first flush of the two-phase commit made durable, and the second header write, received but not synced *)
+Example c08_fc_nonvacuous_run :
+  snd (steps_f (f_init px_st0) fx_hist) = [true; true; false; false]
+  /\ fx_shape (steps_effects (f_init px_st0) fx_hist)
+     = [(1536, 1); (1536, 2); (0, 320); (0, 0); (1024, 2); (0, 320); (0, 0); (0, 320)]
+  /\ f_latch (fst (steps_f (f_init px_st0) fx_hist)) = mkL true false
+  /\ first_fail (step_calls (f_st fx_s2) fx_c2) (fail_at 4 false 0) 0 = Some 4%nat
+  /\ nth_error (step_calls (f_st fx_s2) fx_c2) 4 = Some (false, Some Sync)
+  /\ (let w := nth 1 (all_windows (run_step (f_st fx_s2) (rq_step fx_c2))) (open_window px_st0) in
+      p_d (f_st (fst (steps_f (f_init px_st0) fx_hist))) = w_sum w
+      /\ p_win (f_st (fst (steps_f (f_init px_st0) fx_hist))) = w_ops w
+      /\ fx_shape (w_ops w) = [(0, 320)])
+  (* the same commit with its first header write torn after 200 bytes: first window, page + torn header kept *)
+  /\ fx_shape (p_win (f_st (fst (step_f fx_s2 fx_c2 (fail_at 1 true 200))))) = [(1024, 2); (0, 200)]
+  (* fault-free: the state of the protocol model *)
+  /\ fst (step_f fx_s2 fx_c2 fx_ok) = mkF (a_st (run_step (f_st fx_s2) (rq_step fx_c2))) l_init.
+Proof. vm_compute. repeat split; reflexivity. Qed.
+
+(* the shutdown sequence (PClose: quick-repair commit, flush, clean-flag header, sync) with its LAST sync_data
+   failing: Err, 3 windows completed, the clean-flag header received but not synced *)
+Example c08_fc_nonvacuous_close :
+  let r := mkReq (PClose (ex_slot 1 7) [(1024, 2)] [(1024, [1; 7])] None) false [] in
+  let x := step_f fx_s2 r (fail_at 7 true 0) in
+  length (step_calls (f_st fx_s2) r) = 8%nat /\ snd x = false /\ io_failed (f_latch (fst x)) = true
+  /\ fx_shape (p_win (f_st (fst x))) = [(0, 320)]
+  /\ nwindows_before (a_ws (run_step (f_st fx_s2) (rq_step r))) 7 = 3%nat.
+Proof. vm_compute. repeat split; reflexivity. Qed.
+
+(* recovery's own writes: full repair of the god-byte-only crash image (5 windows), the sync of the repair commit's
+   first flush fails *)
+Example c08_fc_nonvacuous_recovery :
+  match recovery_run rx_d_god rx_o_full, recovery_f rx_d_god rx_o_full [3%nat] (fail_at 8 false 0) with
+  | Some a, Some (s', b) =>
+      fx_shape (a_ops a) = [(0, 320); (0, 0); (0, 320); (0, 0); (0, 320); (0, 0); (0, 320); (0, 0); (0, 320); (0, 0)]
+      /\ b = false /\ io_failed (f_latch s') = true /\ fx_shape (p_win (f_st s')) = [(0, 320)]
+      /\ p_d (f_st s') = w_sum (nth 2 (a_ws a) (open_window px_st0))
+  | _, _ => False
+  end.
+Proof. vm_compute. repeat split; reflexivity. Qed.
+
+(* the premises of the composition theorems hold for this history ... *)
+Example c08_fc_hist_ok : hist_ok Hideal ex_expect (f_init px_st0) ex_D fx_hist.
+Proof.
+  cbn [hist_ok fx_hist].
+  split; [vm_compute; reflexivity|]. split; [exact Logic.I|]. intros _.
+  split; [vm_compute; reflexivity|]. split.
+  { repeat split; try (vm_compute; reflexivity);
+      intros e He; vm_compute in He; destruct He as [<- | []]; vm_compute; reflexivity. }
+  intros _.
+  split; [vm_compute; reflexivity|]. split.
+  { repeat split; try (vm_compute; reflexivity);
+      intros e He; vm_compute in He; destruct He as [<- | []]; vm_compute; reflexivity. }
+  intros X. vm_compute in X. discriminate.
+Qed.
+
+(* ... so the theorem applies: whatever survives this history recovers *)
+Example c08_fc_history_by_theorem :
+  exists D' W,
+    apply_ops (steps_effects (f_init px_st0) fx_hist) (storage_of ex_D px_st0)
+    = storage_of D' (f_st (fst (steps_f (f_init px_st0) fx_hist)))
+    /\ sub_ops (p_win (f_st (fst (steps_f (f_init px_st0) fx_hist)))) W
+    /\ forall img, CrashOf D' (p_win (f_st (fst (steps_f (f_init px_st0) fx_hist)))) img ->
+         crash_outcome Hideal ex_expect ex_ps (p_d (f_st (fst (steps_f (f_init px_st0) fx_hist)))) (map abs W) img.
+Proof.
+  destruct (c08_faulty_history_recovers Hideal ex_expect ex_ps ideal_checksum_tear_resistant ex_pages_above
+              fx_hist (f_init px_st0) ex_D _ _ eq_refl (proj1 (protocol_invariant_executable _) px_inv) px_sem0
+              c08_fc_hist_ok (surjective_pairing _)) as (D' & W & A & B & C & _).
+  exists D', W. auto.
+Qed.
+
+(* ... and for the two-phase commit that fails at its second sync_data, in the property's words: what survives
+   (any crash image) shows the commit before it (txid 6) or the failed commit (txid 7), completely *)
+Example c08_fc_2pc_second_sync_all_or_nothing :
+  exists D',
+    forall img, CrashOf D' (p_win (f_st (fst (commit_f fx_s2 true (ex_slot 1 7) [(1024, 2)] [(1024, [1; 7])] None []
+                                                       (fail_at 4 false 0))))) img ->
+      recover Hideal ex_expect ex_ps img = Some (ex_slot 2 6) \/ recover Hideal ex_expect ex_ps img = Some (ex_slot 1 7).
+Proof.
+  pose proof (proj1 (protocol_invariant_executable _) px_inv) as I0.
+  set (s1 := fst (step_f (f_init px_st0) fx_evict (fail_at 1 false 1))).
+  assert (E1 : step_f (f_init px_st0) fx_evict (fail_at 1 false 1) = (s1, true)) by (vm_compute; reflexivity).
+  destruct (c08_ok_step_keeps_invariants Hideal ex_expect ex_ps ideal_checksum_tear_resistant ex_pages_above
+              (f_init px_st0) fx_evict _ s1 ex_D eq_refl I0 px_sem0 ltac:(vm_compute; reflexivity) Logic.I E1)
+    as (I1 & S1 & L1).
+  assert (E2 : step_f s1 fx_c1 fx_ok = (fx_s2, true)) by (vm_compute; reflexivity).
+  destruct c08_fc_hist_ok as (_ & _ & Hr). specialize (Hr eq_refl). cbn [hist_ok] in Hr.
+  destruct Hr as (Ok1 & Sem1 & Hr). specialize (Hr eq_refl). destruct Hr as (Ok2 & Sem2 & _).
+  destruct (c08_ok_step_keeps_invariants Hideal ex_expect ex_ps ideal_checksum_tear_resistant ex_pages_above
+              s1 fx_c1 _ fx_s2 _ L1 I1 S1 Ok1 Sem1 E2) as (I2 & S2 & L2).
+  destruct (c08_failed_commit_all_or_nothing Hideal ex_expect ex_ps ideal_checksum_tear_resistant ex_pages_above
+              fx_s2 true (ex_slot 1 7) [(1024, 2)] [(1024, [1; 7])] None [] (fail_at 4 false 0) _ _ L2 I2 S2 Ok2 Sem2
+              (surjective_pairing _)) as (D' & _ & X).
+  exists D'. intros img HC. destruct (X img HC) as [Y | Y]; [left | right]; rewrite Y; [vm_compute|]; reflexivity.
+Qed.
+
+(* ------------------------------------------------------------------------------------------------
+   Tie to the code (Gen/Fns.v is regenerated from cached_file.rs on every run by tools/gen_fns.py; see
+   design.d/GEN.md): lock striping and the write-buffer budget test of the cache model are the expressions translated
+   from PagedCachedFile::lock_stripes / write_buffer_stripe / write. *)
+From RV Require Import Gen.FnsLib Gen.Fns Gen.FnsCacheP.
+
+Theorem c08_code_cache_stripes_is_model :
+  Cache.STRIPES = PagedCachedFile_lock_stripes /\ N.of_nat Cache.NSTRIPES = PagedCachedFile_lock_stripes.
+Proof. exact cache_stripes_is_model. Qed.
+
+Theorem c08_code_cache_stripe_of_is_model : forall off, Cache.stripe off = cache_stripe_of off.
+Proof. exact cache_stripe_is_model. Qed.
+
+Theorem c08_code_cache_write_over_half_is_model : forall c s0 len,
+  (max_cache c / 2 <? wb_bytes (set_wbb s0 (wb_bytes s0 + len)))%N
+  = cache_write_over_half (wb_bytes s0) len (max_cache c).
+Proof. exact cache_write_over_half_is_model. Qed.
